@@ -238,6 +238,9 @@ def _cmp_gate(what, got, orig):
         if isinstance(orig, base):
             if not isinstance(got, base):
                 raise Violation(f"{what}: {orig!r} came back as {got!r}")
+            if _is_num(orig.exponent) and _is_num(got.exponent) and got == base(exponent=R.f32(orig.exponent)):
+                # equal up to the period of the gate (X**0 and X**2 are one Python value and share a constant)
+                return
             return _cmp_farg(f"{what} {base.__name__}.exponent", got.exponent, orig.exponent)
     if isinstance(orig, cirq.PhasedXPowGate):
         if not isinstance(got, cirq.PhasedXPowGate):
@@ -700,15 +703,52 @@ def _short(e):
     return m[:60]
 
 
-def _roundtrip_one(c, label="program"):
+def _allowed_rejections(r):
+    """ValueError messages this recipe may legitimately provoke (content outside the format).  Any other ValueError for a
+    program over the supported vocabulary is a violation: supported content must round-trip, not be refused."""
+    import re
+
+    allowed = []
+    for p in _programs_of(r):
+        ops = p.get("ops", [])
+        if any(o["g"][0] in G.UNSUPPORTED for o in ops):
+            allowed += [r"Cannot serialize op", r"Qubits of type"]
+        if any(o.get("tag_outside") and o.get("ctl") for o in ops):
+            allowed += [r"Cannot serialize op"]
+        if any(t[0] == "unknown" for t in _all_tag_recipes(r)):
+            allowed += [r"Unrecognized Tag"]
+        conds = [c for o in ops for c in o.get("ctl", [])] + [c for co in p.get("cops", []) for c in co.get("ctl", []) + ([co["until"]] if co.get("until") else [])]
+        if any(c[0] == "bool" for c in conds):
+            allowed += [r"Unrecognized Sympy expression type"]  # sympy folded the condition to a constant truth value
+        for o in ops:
+            kinds = {t[0] for t in o.get("tags", [])}
+            if o["g"][0] == "FSim" and {"fsim_model", "two_pulse"} <= kinds:
+                allowed += [r"FSimViaModelTag and TwoPulseFSimTag cannot"]
+            if o["g"][0] == "M" and not re.match(r"^[^:]*$", o["g"][1]["key"]):
+                allowed += [r"Invalid key name"]
+        if any(v[0] in ("add", "mul", "neg", "pow") for co in p.get("cops", []) for v in co.get("params", {}).values()):
+            allowed += [r"Invalid value parameter type in deserialized CircuitOperation"]
+    return allowed
+
+
+def _classify_value_error(e, allowed, stage):
+    import re
+
+    msg = str(e)
+    if any(re.search(a, msg) for a in allowed):
+        raise Reject(f"{stage}: documented ValueError: " + _short(e))
+    raise Violation(f"{stage} raised ValueError for a program whose content the format supports: {_short(e)}")
+
+
+def _roundtrip_one(c, label="program", allowed=()):
     try:
         p1 = S.serialize(c)
     except ValueError as e:
-        raise Reject("serialize: documented ValueError: " + _short(e))
+        _classify_value_error(e, allowed, "serialize")
     try:
         d1 = S.deserialize(p1)
     except ValueError as e:
-        raise Reject("deserialize: documented ValueError: " + _short(e))
+        _classify_value_error(e, allowed, "deserialize")
     _cmp_circuit(label, d1, c)
     have = _check_table(p1, [c], label)
     p2 = S.serialize(d1)
@@ -737,16 +777,25 @@ def _leaf_args(proto):
 
 def _build_or_reject(r):
     try:
-        return G.build_program(r)
+        c = G.build_program(r)
     except ValueError as e:
         raise Reject("cirq refuses the recipe: " + str(e).split("\n")[0][:40])
+    try:
+        cirq.is_parameterized(c)  # a CircuitOperation resolves its body lazily; an inconsistent param_resolver raises here
+    except ValueError as e:
+        raise Reject("cirq refuses the recipe: " + str(e).split("\n")[0][:40])
+    except TypeError:
+        # param_resolver of a CircuitOperation maps the duration symbol of a WaitGateWithUnit to an expression: parameter
+        # resolution of that gate (not the wire format) fails; such a program cannot be mapped at all -> outside C16's domain
+        raise Reject("cirq cannot resolve the recipe's CircuitOperation parameters")
+    return c
 
 
 def oracle_programs(r):
     for name in PROGRAM_FEATURES:
         _pending(name, "programs", r)
     c = _build_or_reject(r)
-    have, _ = _roundtrip_one(c)
+    have, _ = _roundtrip_one(c, allowed=_allowed_rejections(r))
     return _program_labels(c, have, None)
 
 
@@ -805,12 +854,12 @@ def oracle_multi(r):
                     else:
                         want.append(("", args, circuits[i]))
     except ValueError as e:
-        raise Reject("serialize: documented ValueError: " + _short(e))
+        _classify_value_error(e, _allowed_rejections(r), "serialize")
     proto = program_pb2.Program.FromString(proto.SerializeToString())
     try:
         got = S.deserialize_multi_program(proto)
     except ValueError as e:
-        raise Reject("deserialize: documented ValueError: " + _short(e))
+        _classify_value_error(e, _allowed_rejections(r), "deserialize")
     if len(got) != len(want):
         raise Violation(f"multi-program ({form}): {len(want)} circuits came back as {len(got)}")
     for i, ((gk, gargs, gc), (wk, wargs, wc)) in enumerate(zip(got, want)):
